@@ -31,8 +31,8 @@ func (c16) Describe() engine.Info {
 	return engine.Info{
 		Rule: "scenario = MBC1 cartridge (8 ROM pages, 4 RAM banks, RAM enabled) with random contents everywhere + FF46 write with page XX (every page 00-F1 enumerated by index, then random) + 0..3 restarts (same or other page) at random cycles of the running transfer + 0..4 source-byte writes / ROM or RAM bank switches during the transfer; OAM is read over the bus at three addresses (FE00-FE9F and FEA0-FEFF) after every cycle. " +
 			"Oracle: 162 cycles after the last start OAM holds, byte for byte, a value the source byte had during that transfer; reads of FE00-FEFF return FF from cycle 2 to 160 of a running transfer (0, 1, 161: either) and data / 00 afterwards; nothing else changes OAM. Signature = (source region, restarted?, restart phase class, source changed during transfer?).",
-		Assumptions:    []string{"LCD off (OAM otherwise plain); the CPU is parked in high RAM", "a source byte changed while the copy runs may be copied old or new"},
-		RequiredProbes: []string{"dma_started", "dma_restarted_while_running", "source_changed_during_transfer", "oam_read_during_transfer", "echo_source"},
+		Assumptions:    []string{"LCD off (OAM otherwise plain) in two thirds of the scenarios; in the others the LCD is on, OAM is read only while the transfer blocks it, and the result is judged through the side-effect-free accessor; the CPU is parked in high RAM", "a source byte changed while the copy runs may be copied old or new"},
+		RequiredProbes: []string{"oam_read_during_transfer_in_mode2", "dma_started", "dma_restarted_while_running", "source_changed_during_transfer", "oam_read_during_transfer", "echo_source"},
 		RealComponents: realComponents, StubComponents: stubComponents,
 		Sweeps: []string{"every source page 00-F1 (indices 0..241)"},
 	}
@@ -85,6 +85,11 @@ func (c16) Generate(r *engine.Rand, index int, tier string) *engine.Scenario {
 			sc.Events[i].At = sc.Events[i-1].At + 1
 		}
 	}
+	if r.Chance(1, 3) {
+		// LCD on: the transfer is longer than a scan line, so it overlaps the PPU's own OAM scan
+		sc.SetP("lcd", 1)
+		sc.SetP("lcd_lead", int64(r.Range(1, 600)))
+	}
 	sc.Cycles = sc.Events[len(sc.Events)-1].At + 200
 	return sc
 }
@@ -131,6 +136,12 @@ func (c16) Execute(sc *engine.Scenario) *engine.Result {
 	}
 	m.OAM.VerifPoke(oamInit)
 	m.Park()
+	lcdOn := sc.P("lcd", 0) != 0
+	if lcdOn {
+		m.Write(0xff40, 0x91)
+		m.RunCycles(uint64(sc.P("lcd_lead", 1)))
+	}
+	t0 := m.N
 	srcByte := func(a uint16) uint8 {
 		switch {
 		case a < 0x8000, a >= 0xa000 && a < 0xc000:
@@ -179,6 +190,16 @@ func (c16) Execute(sc *engine.Scenario) *engine.Result {
 		n := m.N
 		// three OAM reads per cycle: fixed, data area, unusable area
 		addrs := []uint16{0xfe00, 0xfe00 + uint16((n*7)%0xa0), 0xfea0 + uint16((n*5)%0x60)}
+		if lcdOn {
+			// with the LCD on a read of FE00-FEFF is only free of effects on OAM while a transfer
+			// blocks it: read (once per cycle) only then
+			addrs = addrs[1:2]
+			if !(running && n-start >= 2 && n-start <= 160) {
+				addrs = nil
+			} else if m.PPU.VerifMode() == 2 {
+				res.Probe("oam_read_during_transfer_in_mode2")
+			}
+		}
 		for _, a := range addrs {
 			v := m.Read(a)
 			dg.Byte(v)
@@ -236,8 +257,8 @@ func (c16) Execute(sc *engine.Scenario) *engine.Result {
 			}
 		}
 	}
-	for m.N < sc.Cycles && ok {
-		for ei < len(sc.Events) && sc.Events[ei].At <= m.N {
+	for m.N < t0+sc.Cycles && ok {
+		for ei < len(sc.Events) && t0+sc.Events[ei].At <= m.N {
 			ev := sc.Events[ei]
 			ei++
 			switch ev.S {
@@ -296,9 +317,9 @@ func (c16) Execute(sc *engine.Scenario) *engine.Result {
 				snapshot()
 			}
 		}
-		next := sc.Cycles
-		if ei < len(sc.Events) && sc.Events[ei].At < next {
-			next = sc.Events[ei].At
+		next := t0 + sc.Cycles
+		if ei < len(sc.Events) && t0+sc.Events[ei].At < next {
+			next = t0 + sc.Events[ei].At
 		}
 		if next <= m.N {
 			next = m.N + 1
